@@ -21,8 +21,31 @@ TARGETS = {"mac": [("p.eth.src", 6, 6), ("p.eth.dst", 0, 6)],
            "ipv6": [("p.eth.ipv6.src", 14 + 8, 16), ("p.eth.ipv6.dst", 14 + 24, 16)]}
 
 
+def structured_v6(rnd):
+    """addresses whose shape matters to a display routine: runs of zero groups at every place, IPv4-mapped / -compatible /
+    NAT64 prefixes, all ones, single bits"""
+    z = bytes(16)
+    r = rnd.random()
+    if r < 0.2:
+        return bytes(10) + b"\xff\xff" + bytes(rnd.randrange(256) for _ in range(4))          # ::ffff:a.b.c.d
+    if r < 0.3:
+        return bytes(12) + bytes(rnd.randrange(256) for _ in range(4))                        # ::a.b.c.d
+    if r < 0.4:
+        return bytes.fromhex("0064ff9b") + bytes(8) + bytes(rnd.randrange(256) for _ in range(4))
+    if r < 0.7:
+        # random groups with zero runs
+        groups = [rnd.choice([0, 0, 0, 1, 0xffff, rnd.randrange(65536)]) for _ in range(8)]
+        return b"".join(g.to_bytes(2, "big") for g in groups)
+    if r < 0.8:
+        k = rnd.randrange(128)
+        return (1 << k).to_bytes(16, "big")
+    return rnd.choice([z, b"\xff" * 16, bytes(15) + b"\x01", b"\xfe\x80" + bytes(14), b"\xff\x02" + bytes(13) + b"\x01"])
+
+
 def frame_for(fam, rnd=None):
     if fam == "ipv6":
+        if rnd and rnd.random() < 0.6:
+            return pcapfmt.eth(etype=0x86DD) + pcapfmt.ipv6(payload_len=8, nh=17, src=structured_v6(rnd), dst=structured_v6(rnd)) + pcapfmt.udp()
         src = bytes(rnd.randrange(256) for _ in range(16)) if rnd else bytes(range(16))
         dst = bytes(rnd.randrange(256) for _ in range(16)) if rnd else bytes(range(16, 32))
         return pcapfmt.eth(etype=0x86DD) + pcapfmt.ipv6(payload_len=8, nh=17, src=src, dst=dst) + pcapfmt.udp()
@@ -114,8 +137,9 @@ def run(rep, tier, seed):
         rep.cov["distinct_nontrivial"] = len({(r["fam"], tuple(r["text"])) for r in recs})
         rep.cov["rule"] = ("TLC-enumerated texts (spec/GenAddr.tla): IPv6 with '::' at every (start, length) and none x 3 group "
                            "patterns x 4 spellings (case, leading zeros), malformed mutations; MAC / IPv4 octet boundaries at "
-                           "every position and malformed shapes; each assigned to src (and a third also to dst); plus random "
-                           "addresses whose displayed text is assigned to the other field; distinct = distinct (family, text)")
+                           "every position and malformed shapes; each assigned to src (and a third also to dst); plus random and "
+                           "structured addresses (zero runs at every place, IPv4-mapped / -compatible / NAT64 prefixes, single "
+                           "bits, all ones) whose displayed text is assigned to the other field; distinct = distinct (family, text)")
         rep.cov["exhaustive"] = False
         rep.sample({"program": jobs[0]["src"], "result": recs[0]})
     finally:
